@@ -74,10 +74,7 @@ Theorem C10_cell_skeleton_partial : forall c prefix h h',
   val_ok prefix -> render_cell c prefix = Ok h -> render_cell (alpha_cell c) prefix = Ok h' ->
   tag_skeleton (tokenize h) = tag_skeleton (tokenize h') /\
   tag_skeleton (tokenize h) = cell_skel c /\ skel_clean (cell_skel c) = true.
-Proof.
-  intros c prefix h h' Hp H H'. split; [exact (cell_skeleton_twin c prefix h h' Hp H H')|].
-  split; [exact (cell_skeleton c prefix h Hp H) | exact (cell_skel_clean c)].
-Qed.
+Proof. exact cell_skeleton_all. Qed.
 Print Assumptions C10_cell_skeleton_partial.
 
 (** ** Site templates *)
